@@ -265,13 +265,22 @@ def attribute_crash(st, go_cmd, workdir, name):
             ops = [l.rstrip("\n") for l in f if l.strip()]
         rest = ops[answered:]
         env = dict(os.environ); env["VERIF_FLUSH"] = "1"
+        crashlog = os.path.join(workdir, name + ".crashlog")
+        env["VERIF_CRASHLOG"] = crashlog
         for _ in range(3):
             if not rest:
                 return None
+            if os.path.exists(crashlog):
+                os.remove(crashlog)
             p = subprocess.run(go_cmd, input=("\n".join(rest) + "\n").encode(), stdout=subprocess.PIPE, stderr=subprocess.PIPE, env=env, timeout=3000)
             if p.returncode == 0:
                 return None
             k = p.stdout.count(b"\n")
+            # batch harnesses answer at the end: they log the index of the line they work on instead
+            if os.path.exists(crashlog):
+                idx = [int(x) for x in open(crashlog).read().split() if x.isdigit()]
+                if idx:
+                    k = idx[-1]
             if k >= len(rest):
                 return None
             cand = rest[k]
